@@ -224,6 +224,51 @@ def runtime_against_installed(rep: Report, tree: ast.Module, embedded: str, inst
         r.floor = 0
 
 
+def no_monkeypatching(rep: Report) -> None:
+    """R16.11: the shipped parser is the module _parser.py as compared above - unless another module of the
+    package rebinds its names at import time (`_parser.LexerThread = ...`), which changes every parser built
+    from it afterwards without touching a byte of the generated file."""
+    import glob
+    n = 0
+    for path in sorted(glob.glob(os.path.join(SRC, "*.py"))):
+        short = os.path.basename(path)
+        if short == "_parser.py":
+            continue
+        try:
+            t = ast.parse(open(path, encoding="utf-8").read())
+        except SyntaxError as e:
+            raise AnalysisError(f"{rel(path)} does not parse: {e}")
+        aliases = {"_parser"}
+        for node in ast.walk(t):
+            if isinstance(node, ast.ImportFrom):
+                for a in node.names:
+                    if a.name == "_parser":
+                        aliases.add(a.asname or a.name)
+            if isinstance(node, ast.Import):
+                for a in node.names:
+                    if a.name.endswith("._parser"):
+                        aliases.add(a.asname or a.name)
+        for node in ast.walk(t):
+            tgts = node.targets if isinstance(node, ast.Assign) else ([node.target] if isinstance(node, (ast.AugAssign, ast.AnnAssign)) else
+                                                                       (node.targets if isinstance(node, ast.Delete) else []))
+            for tg in tgts:
+                for x in ast.walk(tg):
+                    if isinstance(x, ast.Attribute) and isinstance(x.ctx, (ast.Store, ast.Del)):
+                        root = x.value
+                        while isinstance(root, ast.Attribute):
+                            root = root.value
+                        if isinstance(root, ast.Name) and root.id in aliases and ast.unparse(x.value).split(".")[0] in aliases:
+                            n += 1
+                            rep.fail("R16.11", f"{short}:{ast.unparse(x)}", f"{short} rebinds `{ast.unparse(x)}` in the generated parser module: once the package is "
+                                     "imported the shipped parser no longer runs the code that was compared with the grammar", f"{rel(path)}:{node.lineno}")
+            if isinstance(node, ast.Call) and isinstance(node.func, ast.Name) and node.func.id in ("setattr", "delattr") and node.args \
+                    and isinstance(node.args[0], ast.Name) and node.args[0].id in aliases:
+                n += 1
+                rep.fail("R16.11", f"{short}:{ast.unparse(node)[:40]}", f"{short} patches the generated parser module with {node.func.id}()", f"{rel(path)}:{node.lineno}")
+    if n == 0:
+        rep.ok("R16.11", "package", note="no module assigns into measured._parser")
+
+
 def parser_wiring(rep: Report, tree: ast.Module) -> None:
     """R16.8: the LALR driver consults the compared tables and nothing else:
       a. the action for a token is `states[<top of state stack>][token.type]`, a miss raises UnexpectedToken;
@@ -268,6 +313,7 @@ def parser_wiring(rep: Report, tree: ast.Module) -> None:
 
 
 def run(rep: Report) -> None:
+    rep.rule("R16.11", "no module of the package rebinds names of the generated parser module", floor=1)
     rep.rule("R16.10", "the part of the embedded runtime no installed generator can reproduce (59 functions that differ between Lark versions, module "
              "and class skeleton) is the generator's pinned output while the embedded version string is unchanged", floor=60)
     rep.rule("R16.9", "embedded runtime vs installed Lark source: every function outside the recorded version-difference residue is identical", floor=150)
@@ -341,6 +387,7 @@ def run(rep: Report) -> None:
                   "src/measured/_parser.py")
     lexer_wiring(rep, sh.tree)
     parser_wiring(rep, sh.tree)
+    no_monkeypatching(rep)
     runtime_against_installed(rep, sh.tree, str(sh.version), str(lark_version))
     # R16.6
     rep.inventory("R16.6", {"embedded_lark": sh.version, "installed_lark": lark_version,
